@@ -481,6 +481,186 @@ fn fuzz_case(mut c: Case) -> Case {
     c
 }
 
+// ---------------------------------------------------------------------------------------------
+// part `session`: the same claim for the frames the *connection* acts on. The handshake and the
+// steady state are served by one frame buffer, so a read that ends inside the first frame behind
+// OpenOk is just another cut; the session must not depend on where it falls.
+
+#[derive(Clone, Debug, Serialize, Deserialize, PartialEq)]
+pub enum TFrame {
+    Blocked(String),
+    Unblocked,
+    Heartbeat,
+    /// Connection.Close(code, text): only generated as the last frame; makes "acted on exactly
+    /// once" observable (one CloseOk on the wire, the close's code and text in the result)
+    ServerClose(u16, String),
+}
+
+#[derive(Clone, Debug, Serialize, Deserialize, PartialEq)]
+pub struct SCase {
+    /// frames the server sends of its own accord right behind OpenOk
+    pub frames: Vec<TFrame>,
+    /// how many of their bytes arrive in the same read segment as OpenOk (picked in 0..=len)
+    pub glue: u16,
+    /// handshake replies cut into segments of this many bytes (0 = whole frames)
+    pub handshake_chunk: u8,
+    pub salt: u64,
+    /// the transport reports would-block between the two segments (otherwise the client may
+    /// drain both in one read loop)
+    #[serde(default)]
+    pub block_between: bool,
+}
+
+pub fn exec_session(c: &SCase) -> Outcome {
+    use crate::broker::{AutoBroker, ServerCfg};
+    use crate::session::{open_session, timed, timed_close, ClientCfg, CALL_TIMEOUT};
+    use amq_protocol::protocol::connection::{AMQPMethod as Conn, Blocked, Unblocked};
+    use amq_protocol::protocol::AMQPClass;
+    let mut trailer = Vec::new();
+    let mut bounds = vec![0usize];
+    for f in &c.frames {
+        let fr = match f {
+            TFrame::Blocked(r) => AMQPFrame::Method(0, AMQPClass::Connection(Conn::Blocked(Blocked { reason: r.clone() }))),
+            TFrame::Unblocked => AMQPFrame::Method(0, AMQPClass::Connection(Conn::Unblocked(Unblocked {}))),
+            TFrame::Heartbeat => AMQPFrame::Heartbeat(0),
+            TFrame::ServerClose(code, text) => AMQPFrame::Method(
+                0,
+                AMQPClass::Connection(Conn::Close(amq_protocol::protocol::connection::Close {
+                    reply_code: *code,
+                    reply_text: text.clone(),
+                    class_id: 0,
+                    method_id: 0,
+                })),
+            ),
+        };
+        trailer.extend_from_slice(&encode(&fr));
+        bounds.push(trailer.len());
+    }
+    let glue = pick(c.glue, trailer.len() + 1);
+    let scfg = ServerCfg {
+        handshake_chunk: c.handshake_chunk as usize,
+        trailer: trailer.clone(),
+        trailer_glue: glue,
+        trailer_block: c.block_between,
+        ..Default::default()
+    };
+    let ctx = format!("{} bytes of {:?} ({} bytes, frame boundaries {:?}) glued to OpenOk", glue, c.frames, trailer.len(), bounds);
+    let mut sess = open_session(&ClientCfg::default(), scfg, vec![], AutoBroker::new(c.salt));
+    let mut conn = match sess.conn.take() {
+        Some(c) => c,
+        None => {
+            let io = sess.wire.io_thread();
+            let _ = sess.broker.stop();
+            if let Some(t) = io {
+                let p = crate::run::take_panics(t);
+                if !p.is_empty() {
+                    return Outcome::fail("io-thread-panic", format!("{} at {}\n{}", p[0].message, p[0].location, ctx));
+                }
+            }
+            if sess.open_hung {
+                return Outcome::hang("session-depends-on-segmentation:open-hang", ctx);
+            }
+            return Outcome::fail("session-depends-on-segmentation:open-failed", format!("{:?}\n{}", sess.open_error, ctx));
+        }
+    };
+    let wire = sess.wire.clone();
+    let res = timed(CALL_TIMEOUT, "avh-c06-session", move || {
+        let r = (|| -> amiquip::Result<()> {
+            let ch = conn.open_channel(None)?;
+            ch.qos(0, 1, false)?;
+            ch.close()
+        })();
+        (r, conn)
+    });
+    let (r, conn) = match res {
+        Some(x) => x,
+        None => {
+            wire.push_eof();
+            let _ = sess.broker.stop();
+            return Outcome::hang("session-depends-on-segmentation:call-hang", ctx);
+        }
+    };
+    let close = timed_close(conn);
+    let io = wire.io_thread();
+    let _ = sess.broker.stop();
+    if let Some(t) = io {
+        let p = crate::run::take_panics(t);
+        if !p.is_empty() {
+            return Outcome::fail("io-thread-panic", format!("{} at {}\n{}", p[0].message, p[0].location, ctx));
+        }
+    }
+    let server_close = c.frames.iter().find_map(|f| match f {
+        TFrame::ServerClose(code, text) => Some((*code, text.clone())),
+        _ => None,
+    });
+    match &server_close {
+        None => {
+            if let Err(e) = r {
+                return Outcome::fail("session-depends-on-segmentation:call-failed", format!("{:?}\n{}", e, ctx));
+            }
+            match close {
+                Some(Ok(())) => {}
+                Some(Err(e)) => return Outcome::fail("session-depends-on-segmentation:close-failed", format!("{:?}\n{}", e, ctx)),
+                None => return Outcome::hang("session-depends-on-segmentation:close-hang", ctx),
+            }
+        }
+        Some((code, text)) => {
+            // the calls race with the close (either outcome is fine); the close itself must be
+            // answered exactly once and reported with its code and text
+            match close {
+                Some(Err(Error::ServerClosedConnection { code: c2, message })) if c2 == *code && message == *text => {}
+                Some(other) => return Outcome::fail("session-depends-on-segmentation:server-close-not-reported", format!("close returned {:?}\n{}", other, ctx)),
+                None => return Outcome::hang("session-depends-on-segmentation:close-hang", ctx),
+            }
+            let d = crate::codec::decode_stream(&wire.out_snapshot());
+            let n_ok = d
+                .frames
+                .iter()
+                .filter(|(_, f)| matches!(f, AMQPFrame::Method(0, AMQPClass::Connection(Conn::CloseOk(_)))))
+                .count();
+            let last_ok = matches!(d.frames.last(), Some((_, AMQPFrame::Method(0, AMQPClass::Connection(Conn::CloseOk(_))))));
+            if n_ok != 1 || !last_ok {
+                return Outcome::fail("session-depends-on-segmentation:close-ok-count", format!("{} CloseOk frames, last frame is CloseOk: {}\n{}", n_ok, last_ok, ctx));
+            }
+        }
+    }
+    let inside = glue > 0 && !bounds.contains(&glue);
+    let mut o = Outcome::pass(inside);
+    o.labels.push(if inside { "read-ends-inside-first-steady-frame".into() } else if glue == 0 { "nothing-glued".into() } else { "cut-at-frame-boundary".to_string() });
+    if server_close.is_some() {
+        o.labels.push("server-close-right-behind-open-ok".into());
+    }
+    o.labels.push(if c.block_between { "would-block-between-segments".into() } else { "segments-back-to-back".to_string() });
+    o
+}
+
+fn sstrat(_t: Tier) -> BoxedStrategy<SCase> {
+    let f = prop_oneof![
+        3 => gen::short_string().prop_map(TFrame::Blocked),
+        1 => Just(TFrame::Unblocked),
+        2 => Just(TFrame::Heartbeat),
+    ];
+    let tail = prop_oneof![3 => Just(None), 1 => (200u16..600, gen::short_string()).prop_map(|(c, t)| Some(TFrame::ServerClose(c, t)))];
+    (vec(f, 0..4), tail, any::<u16>(), prop_oneof![3 => Just(0u8), 1 => 1u8..9], any::<u64>(), any::<bool>())
+        .prop_map(|(mut frames, tail, glue, handshake_chunk, salt, block_between)| {
+            if let Some(t) = tail {
+                frames.push(t);
+            }
+            if frames.is_empty() {
+                frames.push(TFrame::Heartbeat);
+            }
+            (frames, glue, handshake_chunk, salt, block_between)
+        })
+        .prop_map(|(frames, glue, handshake_chunk, salt, block_between)| SCase {
+            frames,
+            glue,
+            handshake_chunk,
+            salt,
+            block_between,
+        })
+        .boxed()
+}
+
 pub fn parts() -> Vec<Box<dyn PartDyn>> {
     vec![Box::new(Part::<Case> {
         name: "probe",
@@ -494,5 +674,18 @@ pub fn parts() -> Vec<Box<dyn PartDyn>> {
         confirm_runs: 1,
             fuzz: Some(fuzz_case),
             watchdog_s: 0,
+    }),
+    Box::new(Part::<SCase> {
+        name: "session",
+        rule: "whole sessions on the mock transport in which the server sends 1-3 frames of its own accord (Connection.Blocked with a generated reason, Unblocked, heartbeats, optionally ending with Connection.Close(code, text)) right behind OpenOk, a generated number of their bytes (0..=all) arriving in the same read segment as OpenOk and the rest in the next one (with or without a would-block in between), handshake replies whole or cut into 1-8 byte segments; oracle: wherever the cut falls the connection opens, open_channel / qos / Channel::close and Connection::close succeed and nothing panics or hangs - or, with a server close among the frames, exactly one CloseOk is written, as the last frame, and Connection::close reports the code and text; non-trivial = the read that carries OpenOk ends strictly inside the following frame; distinct by case hash",
+        cases: |t| t.pick(1500, 30_000),
+        threads: 16,
+        strategy: sstrat,
+        exec: exec_session,
+        enumerate: None,
+        shrink_budget: 100,
+        confirm_runs: 2,
+        fuzz: None,
+        watchdog_s: 60,
     })]
 }
